@@ -177,6 +177,7 @@ func check(args []string) int {
 	solver := fs.String("solver", "z3-new", "")
 	budget := fs.Int("budget", 0, "seconds (0 = tier default)")
 	validate := fs.Int("validate", -1, "number of passing paths to validate natively (-1 = tier default)")
+	evDir := fs.String("evidence-dir", "", "write evidence and replays here instead of <verif>/evidence, <verif>/replays (scratch runs against mutated trees)")
 	if len(args) < 1 {
 		fmt.Fprintln(os.Stderr, "usage: verif check <property> [--tier quick|thorough]")
 		return 2
@@ -213,10 +214,16 @@ func check(args []string) int {
 		}
 	}
 
+	replayDir := filepath.Join(*verif, "replays")
+	evidenceDir := filepath.Join(*verif, "evidence")
+	if *evDir != "" {
+		evidenceDir = *evDir
+		replayDir = filepath.Join(*evDir, "replays")
+	}
 	P, err := gosym.Load(*repo, loadOverlay(*repo, harnessDir), "verif")
 	if err != nil {
 		fmt.Println("INCONCLUSIVE reason=load-failed:", err)
-		writeEvidenceFailure(*verif, prop, *tier, seed, start, "load failed: "+err.Error())
+		writeEvidenceFailure(evidenceDir, prop, *tier, seed, start, "load failed: "+err.Error())
 		return 2
 	}
 	loadDur := time.Since(start)
@@ -237,7 +244,7 @@ func check(args []string) int {
 		})
 		if err != nil {
 			fmt.Println("INCONCLUSIVE reason=explore-failed:", err)
-			writeEvidenceFailure(*verif, prop, *tier, seed, start, err.Error())
+			writeEvidenceFailure(evidenceDir, prop, *tier, seed, start, err.Error())
 			return 2
 		}
 		all = append(all, agg{e, res})
@@ -301,7 +308,6 @@ func check(args []string) int {
 	}
 	sort.Strings(candKeys)
 
-	replayDir := filepath.Join(*verif, "replays")
 	violations := 0
 	knownObserved := []string{}
 	var out []string
@@ -506,7 +512,7 @@ func check(args []string) int {
 		},
 		"assumptions": spec.Assumptions,
 	}
-	writeJSON(filepath.Join(*verif, "evidence", prop+".json"), ev)
+	writeJSON(filepath.Join(evidenceDir, prop+".json"), ev)
 
 	for _, l := range out {
 		fmt.Println(l)
@@ -540,8 +546,8 @@ func lastLines(s string, n int) string {
 	return strings.Join(ls, " / ")
 }
 
-func writeEvidenceFailure(verif, prop, tier string, seed int64, start time.Time, why string) {
-	writeJSON(filepath.Join(verif, "evidence", prop+".json"), map[string]interface{}{
+func writeEvidenceFailure(evidenceDir, prop, tier string, seed int64, start time.Time, why string) {
+	writeJSON(filepath.Join(evidenceDir, prop+".json"), map[string]interface{}{
 		"property_id": prop, "tier": tier, "seed": seed, "level": "other",
 		"wall_s":   time.Since(start).Seconds(),
 		"coverage": map[string]interface{}{"explanation": "check could not run: " + why},
